@@ -1958,6 +1958,141 @@ C07_THEOREMS = ['Blf.Props.C07_queue_result']
 C11_THEOREMS = []
 
 
+def check_C12(res):
+    fc, pipe, summary, exact, fexe, cexe = file_setup(res, 'C12', C12_THEOREMS)
+    env = dict(fc.fenv()); env['VERIF_WATCHDOG_S'] = '300'
+    BUF = 0x20000
+    QCAP = 10
+    configs = [(60000, 4096, 0, 0), (200, 4096, 0, 0), (3000, 16384, 1, 0), (200, 4096, 50, 2000), (60000, 4096, 3, 3000)]
+    if res.tier == 'thorough':
+        configs += [(300000, 65536, 0, 0), (1000, 1048576, 0, 0), (60000, 4096, 0, 0), (200, 4096, 0, 0)]
+    reqs = []
+    meta = []
+    for (payload, cs, stall_every, stall_us) in configs:
+        per_obj = payload + 48
+        for ncont in ((4, 32, 256) if res.tier == 'quick' else (4, 16, 64, 256, 1024)):
+            n = max(1, (ncont * cs) // per_obj)
+            for rep in range(2):
+                reqs.append('heap %d %d %d %d %d %d' % (n, payload, cs, 0 if payload > 1000 else 1, stall_every, stall_us))
+                meta.append((payload, cs, stall_every, ncont, n))
+    ans, rc, err = lib.psession(fexe, reqs, nproc=8, env=env, timeout=7200)
+    if len(ans) != len(reqs):
+        res.oblige('D:heap-session', False, '%d answers for %d requests %s' % (len(ans), len(reqs), err[-400:]))
+        finish_codec(res)
+    res.corr['programs'] = 1
+    table = {}
+    for m, a in zip(meta, ans):
+        res.corr['requests'] += 1
+        d = kv(a)
+        if 'wpeak' not in d:
+            res.violation('heap', 'heap session failed: ' + a[:100], {'class': 'File', 'failure': 'heap-session-failed', 'request': 'heap ' + str(m)})
+            continue
+        key = m[:3]
+        t = table.setdefault(key, {})
+        w, r = t.get(m[3], (0, 0))
+        t[m[3]] = (max(w, int(d['wpeak'])), max(r, int(d['rpeak'])))
+    rows = []
+    for (payload, cs, stall), t in table.items():
+        bound = BUF + 3 * cs + (QCAP + 3) * (payload + 512) * 2 + 262144
+        for side, idx in (('write', 0), ('read', 1)):
+            peaks = {n: v[idx] for n, v in t.items()}
+            rows.append({'payload': payload, 'container': cs, 'stall_every': stall, 'side': side, 'peak_by_containers': peaks, 'bound': bound})
+            ns = sorted(peaks)
+            for prev, n in zip(ns, ns[1:]):
+                pk, small = peaks[n], peaks[prev]
+                # growth between consecutive sizes beyond the point where the buffer is saturated
+                if pk > bound and pk > 1.25 * small + 65536:
+                    res.violation('heap', '%s session: peak live heap %d bytes with %d containers (%d with %d containers), bound %d: grows with the number of containers' % (side, pk, n, small, prev, bound),
+                                  {'class': 'File', 'failure': 'peak-heap-grows-%s-session' % side, 'payload': payload, 'container_size': cs, 'peaks': peaks})
+                    break
+    res.corr['heap_table'] = rows
+    res.corr['distinct'] = len(set(reqs))
+    res.corr['rule'] = 'files of 4..256 (thorough: ..1024) containers, AppText payloads 200 B .. 60 KB (thorough: 300 KB) so that objects are far smaller than / span many containers, consumers that stall; peak live heap of the write and of the read session counted by the replaced operator new/delete of the harness; failure = peak above buffer + 3 containers + queue, and growing with the number of containers'
+    res.corr['samples'] = rows[:3]
+    finish_codec(res)
+
+
+def check_C13(res):
+    fc, pipe, summary, exact, fexe, cexe = file_setup(res, 'C13', C13_THEOREMS)
+    rng = random.Random(lib.seed() * 3631 + 13)
+    classes = [c for c in creatable(summary) if c in exact]
+    g = codecgen_mod().ObjGen(summary, rng)
+    # valid files of 0..50 objects
+    cases = []
+    for n in [0, 1, 2, 5, 12, 50]:
+        objs = [(cn, fc.api_object(g, summary, cn, rng)) for cn in [rng.choice(classes) for _ in range(n)]]
+        objs = [(cn, {i: (v if len(v) <= 40 else v[:40]) for i, v in a.items()}) for cn, a in objs]
+        cases.append(fc.Case(rng.choice([0, 1]), rng.choice([64, 4096, 131072]), True, objs))
+    out = fc.run_cases(pipe, res, cases, fexe, cexe, want_model=False)
+    if out is None:
+        finish_codec(res)
+    files = [(len(c.objs), o['file'].hex()) for c, o in zip(cases, out) if o['file'] is not None]
+    nh = 400 if res.tier == 'quick' else 8000
+    maxlen = 12 if res.tier == 'quick' else 40
+    hist = []
+    for _ in range(nh):
+        n, fhex = rng.choice(files)
+        ops = []
+        state = 'closed'   # closed | in | out | done
+        opened = False
+        for _ in range(rng.randrange(1, maxlen + 1)):
+            if state == 'closed' and not opened:
+                op = rng.choice(['om', 'ou', 'oi', 'oi', 'oo', 'oo', 'c', 'd'])
+            elif state == 'closed':
+                op = rng.choice(['om', 'ou', 'c', 'c', 'd'])
+            elif state == 'in':
+                op = rng.choice(['r', 'r', 'r', 'r', 'oi', 'oo', 'om', 'c', 'd'])
+            else:
+                op = rng.choice(['w', 'w', 'w', 'oo', 'oi', 'ou', 'c', 'd'])
+            ops.append(op)
+            if op == 'oi' and state == 'closed' and not opened:
+                state = 'in'; opened = True
+            elif op == 'oo' and state == 'closed' and not opened:
+                state = 'out'; opened = True
+            elif op == 'c':
+                state = 'closed'
+            elif op == 'd':
+                break
+        hist.append((n, fhex, ops))
+    hreq = ['api %s %s' % (fhex, ' '.join(ops)) for n, fhex, ops in hist]
+    mreq = ['api %d %s' % (n, ' '.join(ops)) for n, fhex, ops in hist]
+    env = dict(fc.fenv())
+    a, rc, err = lib.psession(fexe, hreq, env=env, timeout=3600)
+    m, rc, err2 = lib.psession(lib.driver_exe(), mreq)
+    if len(a) != len(hreq) or len(m) != len(mreq):
+        res.oblige('D:api-session', False, 'harness %d, driver %d answers for %d histories %s' % (len(a), len(m), len(hreq), err[-300:]))
+        finish_codec(res)
+    res.corr['programs'] = 1
+    dis = 0
+    for (n, fhex, ops), x, y in zip(hist, a, m):
+        res.corr['requests'] += 1
+        if x != y:
+            dis += 1
+            if dis <= 10:
+                px, py = x.split(' | '), y.split(' | ')
+                k = next((i for i in range(min(len(px), len(py))) if px[i] != py[i]), min(len(px), len(py)))
+                res.violation('model-vs-implementation', 'API history: implementation and reference state machine differ at step %d (%s vs %s)' % (k, px[k] if k < len(px) else None, py[k] if k < len(py) else None),
+                              {'history': ' '.join(ops), 'objects_in_file': n, 'impl': x[:1500], 'model': y[:1500]})
+        # property oracle on the implementation
+        d = kv(x.split(' | ')[-1]) if 'leak=' in x else {}
+        if 'leak' not in d:
+            res.violation('lifecycle', 'history did not complete: ' + x[:120], {'class': 'File', 'failure': 'history-' + (x.split('outcome=')[-1].split()[0] if 'outcome=' in x else 'failed'), 'history': ' '.join(ops), 'objects_in_file': n})
+        elif d['leak'] != '0':
+            res.violation('lifecycle', 'live heap after the history differs by %s bytes (an object or buffer was not released exactly once)' % d['leak'], {'class': 'File', 'failure': 'leak', 'history': ' '.join(ops), 'objects_in_file': n})
+        elif d['threads'] != '0':
+            res.violation('lifecycle', '%s threads left behind' % d['threads'], {'class': 'File', 'failure': 'thread-leak', 'history': ' '.join(ops), 'objects_in_file': n})
+    res.corr['disagreements'] = dis
+    res.oblige('D:api-correspondence', dis == 0, '%d disagreements' % dis)
+    res.corr['distinct'] = len(set(hreq))
+    res.corr['rule'] = 'call histories up to length %d over {open(missing), open(unwritable), open(valid,in), open(out), open again, read, write(obj), close, destroy} that respect the mode of the open session, on files of 0..50 objects; is_open/good/eof after every step compared with the Lean state machine; live heap delta and thread count after destruction must be zero (under ASan: a double free aborts)' % maxlen
+    res.corr['samples'] = [{'history': ' '.join(h[2]), 'answer': x[-60:]} for h, x in list(zip(hist, a))[:3]]
+    finish_codec(res)
+
+
+C13_THEOREMS = ['Blf.Props.C13_after_destroy', 'Blf.Props.C13_flags_read_obj', 'Blf.Props.C13_flags_read_null']
+C12_THEOREMS = []
+
+
 def struct_pack(fmt, v):
     import struct
     return struct.pack(fmt, v)
@@ -1982,7 +2117,7 @@ def finish_codec(res):
     sys.exit(finish(res, kfilter))
 
 
-PROPS = {'C03': check_C03, 'C02': check_C02, 'C17': check_C17, 'C14': check_C14, 'C15': check_C15, 'C16': check_C16, 'C01': check_C01, 'C04': check_C04, 'C05': check_C05, 'C08': check_C08, 'C09': check_C09, 'C10': check_C10, 'C06': check_C06, 'C07': check_C07, 'C11': check_C11}
+PROPS = {'C03': check_C03, 'C02': check_C02, 'C17': check_C17, 'C14': check_C14, 'C15': check_C15, 'C16': check_C16, 'C01': check_C01, 'C04': check_C04, 'C05': check_C05, 'C08': check_C08, 'C09': check_C09, 'C10': check_C10, 'C06': check_C06, 'C07': check_C07, 'C11': check_C11, 'C12': check_C12, 'C13': check_C13}
 
 
 def main():
